@@ -349,7 +349,8 @@ fn tuple_store(rng: &mut Rng, axis_count: u16, is_point: bool, n_shared: u16, ba
         2 => 0x0FFF,
         _ => n_tuples,
     };
-    b.f16(count as u16 | if shared_points { TupleVariationCount::SHARED_POINT_NUMBERS } else { 0 } | if rng.chance(1, 12) { 0x4000 } else { 0 });
+    // reserved bits of the count word: 0x4000, and 0x1000 right above the 12 bit count
+    b.f16(count as u16 | if shared_points { TupleVariationCount::SHARED_POINT_NUMBERS } else { 0 } | if rng.chance(1, 12) { 0x4000 } else { 0 } | if rng.chance(1, 6) { 0x1000 } else { 0 });
     b.f16((base + 4 + headers.len()) as u16);
     b.append(&headers);
     b.bytes(&ser);
